@@ -31,7 +31,7 @@ Keys(s, w) ==
     [] o.k \in {"unlock", "unlock_if", "punlock", "ginc", "gget"} ->
          LET g == s.gd[w+1][o.w+1] IN IF g.k = "m" THEN {<<"m", g.o>>} ELSE IF g.k \in {"r", "w"} THEN {<<"r", g.o>>} ELSE {}
     [] o.k \in {"acquire", "try_acquire", "release", "close", "avail", "is_closed"} -> {<<"s", o.o>>}
-    [] o.k \in {"load", "store", "swap", "fadd", "fsub", "fmax", "fmin", "cas"} -> {<<"a", o.o>>}
+    [] o.k \in {"load", "store", "swap", "fadd", "fsub", "fmax", "fmin", "cas", "b_load", "b_store", "fand", "for", "fxor", "fnand", "b_swap", "b_and", "b_or", "b_xor", "b_nand"} -> {<<"a", o.o>>}
     [] o.k \in {"await_flag", "set_flag", "wake_only", "reg_flag"} -> {<<"f", o.o>>}
     [] o.k \in {"send", "try_send", "recv", "try_recv", "clone_tx", "drop_tx", "drop_rx"} -> {<<"c", o.o>>}
     [] o.k = "barrier_wait" -> {<<"b", o.o>>}
